@@ -24,10 +24,15 @@ R6  inconsistent policy is refused: no success path of finalize_tls_conf /
 R7  trust anchors and CRLs: load_ssl_ctx installs the trusted CAs iff given,
     CRLs iff given, PARTIAL_CHAIN only without CRLs; hostname flags contain
     NO_WILDCARDS and ALWAYS_CHECK_SUBJECT.
+R8  an explicit tls.peer_names list is the whole set of acceptable names
+    ("overrides the hostname"): a name is appended to the socket's list only
+    on the edge where the list was absent (the host name of the address is a
+    default, never an addition).
 """
 from .. import cfg as C
 from .. import interp as I
 from .. import seq as S
+from .. import summary as SUM
 from .. import tp as TP
 from ..model import Program
 from ..report import Broken
@@ -549,3 +554,26 @@ def run(ctx):
         r7.ok("the expected names are installed from the socket's list after clearing the default", "calls present")
     else:
         r7.violation("enable_hostname_validation:names", "the configured peer names are not handed to OpenSSL", loc=ehv.file)
+
+    # ------------------------------------------------------------------ R8
+    r8 = ctx.rule("C09.R8", "explicit tls.peer_names are the whole set of acceptable names: the address's host name is only a default")
+
+    def absent(fn, cond):
+        l, op, r = C.cond_atom(fn, cond, True)
+        if fn.fields_of(l)[-1:] == ("valid_peer_names",) and (isinstance(r, tuple) and r[1] == 0 or (not isinstance(r, tuple) and C.const_of(fn, r) == 0)):
+            return "T" if op == "==" else ("F" if op == "!=" else None)
+        return None
+    nadd = 0
+    for f in P.fns_in(bt.slots["connect"].file.split("/")[-1]):
+        for c in f.calls():
+            n = f.nodes[c]
+            if (n.get("callee") or "") in ("slist_append", "slist_append_all", "slist_insert") and n["args"] and f.fields_of(f.origin(n["args"][0]))[-1:] == ("valid_peer_names",):
+                nadd += 1
+                r8.instance("%s: %s" % (f.qname, f.show(c)[:60]))
+                if SUM.guarded(P, f, c, absent):
+                    r8.ok("%s adds a name only to a list it has just created (no explicit list was given)" % f.qname, "control dependence on `valid_peer_names == NULL`")
+                else:
+                    r8.violation("%s:peer-names-extended" % f.name, "%s appends to the socket's list of acceptable peer names also when the application supplied tls.peer_names: "
+                                 "a certificate valid for the address's host name is accepted although the application asked for other names only" % f.name, loc=f.loc(c))
+    if nadd < 1:
+        raise Broken("C09.R8: no append to valid_peer_names found (the default from the address)")
